@@ -12,6 +12,8 @@ object identity of every accessor, shapes of all buffers of all primaries, of ti
 feature objects / FeatureLists used as TEMPLATES: one object bound with .of() to two or three simulated derivatives of different maturity /
 step size / number of paths, every binding used after the later ones were made (and after a re-simulation of its derivative): each stays on
 the grid of ITS derivative (predicate), and answers the model's feature / features queries of its derivative (op "grid_sys").
+forward-start options with maturity and start on / off the grid: step count and the observed strike-fixing grid point vs op "grid"
+(n_shipped, start_shipped / start_exact); predicate: payoff by hand from the simulated prices at index floor(start/dt).
 """
 import math
 from fractions import Fraction as F
@@ -555,6 +557,11 @@ def check_feature_steps(ctx, torch, I, g, freqs, fmeta):
                         if i >= 0:
                             ctx.fail(f"feature '{name}' raised at a step of the simulated grid", case | {"step": i, "T": T},
                                      key=f"feature.{name}.get:step-error", detail=one)
+                        elif name in ("time_to_maturity", "expiry_time") and -T <= i:
+                            # the time grid is indexed like the price buffers: every index -T .. T-1 that the spot / moneyness
+                            # features accept has a time to maturity (T-1-(i mod T)) dt
+                            ctx.fail(f"feature '{name}' refuses a negative step inside the grid (-T <= step <= -1) that the price features accept",
+                                     case | {"step": i, "T": T}, key=f"feature.{name}.get:negative-step-error", detail=one)
                         continue           # a negative index that is not accepted (e.g. the running maximum up to step -1)
                     ats.append(("ok", float(one.reshape(-1)[0]) if one.numel() else None))
                     col = full[:, [i]]
@@ -860,6 +867,133 @@ def check_shared_features(ctx, torch, I, g, gtraces):
                         if form not in failed and not on_own_grid(form, k, rnd):
                             failed.add(form)
                     ask_model(k)
+
+
+# ---------------------------------------------------------------------------------------------------------------------------
+# the forward-start option: its strike-fixing date `start` lives on the SAME grid as everything else.  Maturity M on step dt gives
+# T = ceil(M/dt)+1 points at times 0, dt, .., (T-1) dt - whether or not M is a multiple of dt - and the strike is fixed at the grid
+# point k with k dt <= start < (k+1) dt (k = floor(start/dt); start/dt within rounding distance of an integer k: k), counted from
+# the FIRST point of the grid: payoff = max(S[T-1] / S[k] - K, 0), computed by hand from the simulated prices.  All combinations of
+# whole / fractional M/dt and start/dt (fixed list, part of every run) plus random ones on every primary with a price series; the object
+# re-used with another start / maturity.  Which grid point the payoff fixes the strike at is OBSERVED (the indices j for which the
+# payoff equals max(S[T-1]/S[j] - K, 0) on every path), not read from the object.  Model: op "grid" (step count, start index shipped /
+# exact).
+
+FS_PRIMS = ["BrownianStock", "HestonStock", "MertonJumpStock", "KouJumpStock", "LocalVolatilityStock", "RoughBergomiStock"]
+FS_MFRAC = [0, 0.25, 0.5, 0.6, 0.75, 0.9, 0.1]
+FS_SFRAC = [0, 0.1, 0.25, 0.4, 0.5, 0.6, 0.7, 0.75, 0.9]
+
+
+def fs_corpus():
+    """(primary, dt, M/dt, start/dt): every pair of fractional parts, at four step sizes"""
+    out = []
+    n = 0
+    for dt in (1 / 250, 1 / 365, 1 / 12, 0.1):
+        for mf in FS_MFRAC:
+            for sf in FS_SFRAC:
+                mw = (2, 3, 4, 6, 10)[n % 5]
+                sw = (n // 5) % (mw + 1)
+                n += 1
+                if sw + sf > mw + mf:
+                    sw = mw - 1
+                out.append((("BrownianStock", "HestonStock", "MertonJumpStock")[n % 3] if n % 4 == 0 else "BrownianStock", dt, mw + mf, sw + sf))
+    return out
+
+
+def start_point(start, dt):
+    """the property's reading on the exact values of the doubles: floor(start/dt); within rounding distance of an integer k: k"""
+    ratio = F(start) / F(dt)
+    near = round(ratio)
+    if abs(ratio - near) <= F(1, 10 ** 9) * max(1, abs(near)):
+        return near, True
+    return math.floor(ratio), False
+
+
+def check_forward_start_grid(ctx, torch, I, g):
+    cases = [(c, True) for c in fs_corpus()]
+    for _ in range(120 if ctx.tier == "quick" else 2500):
+        dt = g.choice(DTS + [0.3, 1 / 252])
+        mw = g.choice([1, 2, 3, 5, 8, 12])
+        mr = mw + g.choice(FS_MFRAC)
+        sr = g.randint(0, mw) + g.choice(FS_SFRAC)
+        if sr > mr:
+            sr = mr if g.chance(0.5) else sr - 1       # (start = maturity: the strike is fixed at the last grid point before the maturity)
+        cases.append(((g.choice(FS_PRIMS), dt, mr, sr), False))
+    greqs, gmeta = [], []
+    for (prim, dt, mr, sr), fixed in cases:
+        dtype = torch.float64 if (fixed or g.chance(0.5)) else None
+        K = g.choice([0.5, 0.7, 0.9])
+        N = g.choice([2, 3, 16])
+        p = make_primary(I, torch, prim, dt, dtype)
+        d = I.EuropeanForwardStartOption(p, strike=K, maturity=mr * dt, start=sr * dt)
+        rounds = [(mr, sr)]
+        if not fixed and g.chance(0.4):
+            # the object re-used: another start (and maturity), simulated again
+            mr2 = mr if g.chance(0.5) else g.choice([1, 2, 4, 7]) + g.choice(FS_MFRAC)
+            rounds.append((mr2, min(g.randint(0, int(mr2)) + g.choice(FS_SFRAC), mr2)))
+        for rnd, (mr_, sr_) in enumerate(rounds):
+            m, start = mr_ * dt, sr_ * dt
+            d.maturity, d.start = m, start
+            case = {"forward_start": True, "primary": prim, "dt": dt, "M": m, "start": start, "M/dt": mr_, "start/dt": sr_, "strike": K,
+                    "n_paths": N, "dtype": str(dtype), "corpus": fixed, "round": rnd}
+            st, v, _ = call_impl(d.simulate, n_paths=N)
+            if st != "ok":
+                ctx.fail("derivative.simulate raised", case, key=f"simulate:{prim}:raise", detail=v)
+                break
+            shapes = {name: tuple(b.shape) for name, b in p.named_buffers()}
+            T = p.spot.size(1)
+            acc = expected_points(m, dt)
+            if any(sh != (N, T) for sh in shapes.values()) or T not in acc:
+                ctx.case(case, True, tag="forward_start_grid")
+                ctx.fail("number of simulated time points differs from ceil(M/dt)+1 (k+1 when M/dt is within rounding distance of the integer k)",
+                         case | {"shapes": str(shapes), "expected": sorted(acc)}, key="primary.simulate:n_steps=ceil(M/dt+1)")
+                break
+            with torch.no_grad():
+                st, pay, mut = call_impl(d.payoff, watch=[("derivative", d)])
+            if mut:
+                ctx.mutated("derivative.payoff", mut, case)
+            want, on_grid = start_point(start, dt)
+            whole = abs(F(m) / F(dt) - round(F(m) / F(dt))) <= F(1, 10 ** 7) * max(1, round(F(m) / F(dt)))
+            ctx.stats[f"forward_start:M/dt-whole={whole}"] += 1
+            ctx.stats[f"forward_start:start-on-grid={on_grid}"] += 1
+            ctx.traces += 1
+            if st != "ok" or tuple(pay.shape) != (N,) or pay.dtype != p.spot.dtype:
+                ctx.case(case, True, tag="forward_start_grid")
+                ctx.fail("the payoff of a forward-start option raised / does not have one entry per path of the simulated grid", case | {"T": T},
+                         key="forward-start:payoff-error", detail=pay if st != "ok" else [list(pay.shape), str(pay.dtype)])
+                break
+            # by hand from the simulated prices: max(S[T-1]/S[j] - K, 0) for every grid point j (IEEE division / subtraction are
+            # correctly rounded: doubles exactly in Python; single precision with the same two tensor operations)
+            if p.spot.dtype == torch.float64:
+                xs = p.spot.tolist()
+                got = pay.tolist()
+                fixes = [j for j in range(T) if got == [max(r[-1] / r[j] - K, 0.0) for r in xs]]
+            else:
+                fixes = [j for j in range(T) if torch.equal(pay, (p.spot[:, -1] / p.spot[:, j] - K).clamp(min=0.0))]
+            ctx.case(case, nontrivial=len(fixes) == 1, tag="forward_start_grid")
+            here = case | {"T": T, "grid_times": f"0, dt, .., {T - 1} dt", "expected_index": want, "payoff_fixes_the_strike_at_index": fixes}
+            greqs.append({"op": "grid", "m": float_bits(m), "dt": float_bits(dt), "start": float_bits(start)})
+            gmeta.append((here, T, fixes, want, on_grid))
+            if want not in fixes:
+                ctx.fail("forward-start option: the payoff is not max(S[T-1]/S[k] - K, 0) with k = floor(start/dt) counted from the first point of "
+                         "the simulated grid (T = ceil(M/dt)+1 points at 0, dt, .., (T-1) dt): the strike is fixed at another grid point"
+                         + ("" if whole else " - the maturity is not a multiple of dt") + ("" if on_grid else ", the start date lies between two grid points"),
+                         here, key="forward-start:strike-fixing-index" + ("" if rnd == 0 else "-reuse"),
+                         detail={"payoff": pay.tolist()[:4], "expected": [max(float(r[-1]) / float(r[want]) - K, 0.0) for r in p.spot.tolist()][:4]
+                                 if want < T else "start index outside the grid"})
+                break
+    try:
+        gouts = ctx.driver(greqs)
+    except DriverBroken as e:
+        ctx.ties_broken.append({"kind": "driver", "detail": str(e)[:1500]})
+        gouts = []
+    for (case, T, fixes, want, on_grid), mo in zip(gmeta, gouts):
+        if mo["n_shipped"] != T:
+            ctx.disagree("n_steps", case, T, mo["n_shipped"])
+        if mo["start_shipped"] not in fixes:
+            ctx.disagree("forward_start_index", case, fixes, mo["start_shipped"])
+        if not on_grid and mo["start_exact"] != want:
+            ctx.disagree("forward_start_index_exact", case, want, mo["start_exact"], note="exact start index of the model vs the harness' reading")
 
 
 def check(ctx):
@@ -1175,6 +1309,7 @@ def check(ctx):
             ats.append((st, float(v[0, 0]) if st == "ok" else v, tuple(v.shape) if st == "ok" else None))
         treqs.append({"op": "ttm", "n": T, "dt": float_bits(dt), "idx": idx})
         tmeta.append((T, dt, idx, allv, ats))
+    check_forward_start_grid(ctx, torch, I, g)
     gs_compare(ctx, gtraces)
     try:
         outs = ctx.driver(reqs)
@@ -1233,4 +1368,7 @@ def check(ctx):
              "maturity / n_paths / strike (5 fixed pairs + random ones), bound before or after the simulations, every binding used after all were "
              "made and after a re-simulation with a new maturity: shape, time to maturity, values, get(i) on its OWN derivative's grid, and the "
              "same bindings as answers to the model's feature(s) queries (grid_sys with several derivatives); "
+             "forward-start options on 6 primaries: every pair of whole / fractional M/dt and start/dt (fixed list at dt 1/250, 1/365, 1/12, 0.1 + random, "
+             "object re-used with another start / maturity): T = ceil(M/dt)+1 and the payoff fixes the strike at grid point floor(start/dt) counted "
+             "from the first point (observed from the payoff against max(S[T-1]/S[j]-K,0) by hand for every j; op grid start index shipped / exact); "
              "every case is non-trivial (T>=2 for ttm); distinct = sha1 of canonical case")
